@@ -376,6 +376,20 @@ class Alg:
             (m, c), = [(m, c) for m, c in p.t.items() if m != ()]
             if c == -1 and len(m) == 1 and m[0][1] == 2 and m[0][0] in self.sin_arg:
                 return self.cos(self.sin_arg[m[0][0]])
+        # sqrt(M - M sin(u)^2) -> sqrt(M) cos(u) for a monomial M (same convention)
+        if len(p.t) == 2:
+            (m1, c1), (m2, c2) = sorted(p.t.items(), key=lambda kv: len(kv[0]))
+            if c1 == -c2 and c1 > 0:
+                d1, d2 = dict(m1), dict(m2)
+                extra = {k: d2.get(k, 0) - d1.get(k, 0) for k in set(d1) | set(d2)}
+                extra = {k: v_ for k, v_ in extra.items() if v_}
+                if len(extra) == 1:
+                    (sa, pw), = extra.items()
+                    if pw == 2 and sa in self.sin_arg and m1 != ():
+                        root = self.sqrt(self._r(Poly({m1: c1})))
+                        if not any(x.startswith('sqrt(') and self.sqrt_of.get(x) is not None
+                                   and self.sqrt_of[x].t == {m1: c1} for x in root.n.atoms()):
+                            return self.mul(root, self.cos(self.sin_arg[sa]))
         # perfect square monomial: sqrt(c * x^2k) = sqrt(c) * |x|^k ; the absolute value is
         # dropped only for atoms known to be non-negative (square roots, positive constants)
         if len(p.t) == 1:
@@ -593,3 +607,55 @@ class Alg:
                 term = self.p_mul(Poly({tuple(rest): c * pw}), da.n)
                 out = self.p_add(out, term)
         return self._r(out)
+
+
+class EpsAlg(Alg):
+    """Alg computing modulo eps^(order+1) in one small atom: products are truncated (Alg.trunc)
+    and reciprocals / square roots of values that depend on eps are expanded as binomial series
+    around their eps = 0 part, so eps never ends up inside an inv(...) or sqrt(...) atom."""
+
+    def __init__(self, eps, order):
+        Alg.__init__(self)
+        self.eps = eps
+        self.order = order
+        self.trunc = (eps, order)
+
+    def _split(self, a):
+        try:
+            d = self.degree_split(a, self.eps)
+        except ValueError:
+            return None
+        if not any(k > 0 for k in d):
+            return None
+        p0 = d.get(0)
+        if p0 is None or p0.n.is_zero():
+            raise ValueError('series in %s without a constant term' % self.eps)
+        rest = self.sub(a, p0)
+        return p0, rest
+
+    def recip(self, b):
+        sp = self._split(b)
+        if sp is None:
+            return Alg.recip(self, b)
+        p0, rest = sp
+        i0 = Alg.recip(self, p0)
+        x = self.mul(rest, i0)
+        out, term = self.const(1), self.const(1)
+        for k in range(1, self.order + 1):
+            term = self.neg(self.mul(term, x))
+            out = self.add(out, term)
+        return self.mul(i0, out)
+
+    def sqrt(self, a):
+        sp = self._split(a)
+        if sp is None:
+            return Alg.sqrt(self, a)
+        p0, rest = sp
+        r0 = Alg.sqrt(self, p0)
+        x = self.mul(rest, Alg.recip(self, p0))
+        out, term, coef = self.const(1), self.const(1), Fraction(1)
+        for k in range(1, self.order + 1):
+            coef = coef * (Fraction(1, 2) - (k - 1)) / k
+            term = self.mul(term, x)
+            out = self.add(out, self.mul(self.const(coef), term))
+        return self.mul(r0, out)
